@@ -255,16 +255,26 @@ class ASTXpath:
         can be found in the LICENSE.txt file in the project root.
         """
         # Using dict, because set is not ordered
+        dummy_root = _DUMMY_XPATH_ROOT(root)
         work: dict[_NodeTraversalInfo | NodeTraversalInfo, None] = {
-            _NodeTraversalInfo(_DUMMY_XPATH_ROOT(root), None, None, None): None
+            _NodeTraversalInfo(dummy_root, None, None, None): None
         }
 
+        def _as_root(c_info: NodeTraversalInfo) -> _NodeTraversalInfo | NodeTraversalInfo:
+            # The real root has no parent, field or index (same as in `match`),
+            # the field of the synthetic wrapper must not be visible
+            if c_info.parent is dummy_root:
+                return _NodeTraversalInfo(c_info.node, None, None, None)
+            return c_info
+
+        c_info: _NodeTraversalInfo | NodeTraversalInfo
         for el in self._elements:
             new_work: dict[_NodeTraversalInfo | NodeTraversalInfo, None] = {}
 
             for n_info in work:
                 if el.anywhere:
-                    for c_info in n_info.node.dfs():
+                    for d_info in n_info.node.dfs():
+                        c_info = _as_root(d_info)
                         if _match_node_element(c_info, el):
                             # Insert into our "ordered set" only if not already in there
                             # this is to prefer first insertion order
@@ -272,7 +282,7 @@ class ASTXpath:
                                 new_work[c_info] = None
                 else:
                     for c, f, i in n_info.node.get_child_nodes_with_field():
-                        c_info = NodeTraversalInfo(c, n_info.node, f, i)
+                        c_info = _as_root(NodeTraversalInfo(c, n_info.node, f, i))
                         if _match_node_element(c_info, el):
                             if c_info not in new_work:
                                 new_work[c_info] = None
